@@ -24,8 +24,8 @@ func selfValidate(c *Ctx, prop, verif string) []map[string]any {
 	ents, _ := os.ReadDir(seedRoot)
 	want := map[string]bool{}
 	for _, e := range ents {
-		if !e.IsDir() {
-			continue
+		if !e.IsDir() || strings.HasPrefix(e.Name(), "benign") {
+			continue // benign-* are negative controls, not seeds
 		}
 		b, err := os.ReadFile(filepath.Join(seedRoot, e.Name(), "meta.json"))
 		if err != nil {
